@@ -107,6 +107,7 @@ func (w *webSocketClient) handleErr(err error) {
 	w.Lock()
 	defer w.Unlock()
 	if !w.isClosing {
+		verifYield("handleErr.send")
 		w.errChan <- err
 	}
 }
